@@ -17,7 +17,7 @@ VERIF = os.path.dirname(os.path.dirname(os.path.abspath(__file__)))
 CLANG = 'clang++-14'
 
 STUB_PATTERNS = [
-    (re.compile(r'cnl::_impl::abort<.*>\(char const\*\)$'), 'abort'),
+    (re.compile(r'cnl::_impl::abort<.*>\(char const\*\)(\)\([^()]*\))?$'), 'abort'),
     (re.compile(r'cnl::_impl::throw_exception<.*>\(char const\*\)$'), 'throw'),
 ]
 
@@ -158,7 +158,9 @@ class Job:
                  harness=None, unwind=None, solvers=('minisat',), timeout=120, klass='proof', bound='',
                  shim=None, shim_types=None, oracle=None, canary='ensures', skip_this=None, prop=None,
                  extra_c='', loop_contracts=False, note='', inline_ok=True, cbmc_flags=(), inputs=None,
-                 expect_fail=None, finding=None, layer=0, object_bits=12, mem_gb=12, cex_filter=None, optional=False, via=None, abstract_mul=False, abstract_fp=False, ignore_classes=(), abstract_div=False):
+                 expect_fail=None, finding=None, layer=0, object_bits=12, mem_gb=12, cex_filter=None, optional=False, via=None, abstract_mul=False, abstract_fp=False, ignore_classes=(), abstract_div=False, unwindset=(), plain=False):
+        self.unwindset = list(unwindset)
+        self.plain = plain      # contract enforced by the harness (assume requires / assert ensures), no DFCC instrumentation: frame NOT checked
         self.via = via
         self.abstract_div = abstract_div
         self.ignore_classes = tuple(ignore_classes)
@@ -548,12 +550,14 @@ def build_job_c(job, kern, canary=False):
             pass
         text = tr.bodies[n]
         if n == tgt:
-            text = text.replace('/*CONTRACT:%s*/' % i['cname'], contract.text(canary=canary and job.canary == 'ensures', ret=ret_expr(tr, i)))
+            text = text.replace('/*CONTRACT:%s*/' % i['cname'], '' if job.plain else contract.text(canary=canary and job.canary == 'ensures', ret=ret_expr(tr, i)))
         else:
             inlined.append(i['demangled'])
         bodies.append(text)
     # functions whose address is taken (indirect calls): include all bodies of lambdas referenced - conservative:
     defs = ''.join('#define %s %s\n' % (k, v) for k, v in job.defines.items())
+    if canary and job.plain:
+        defs += '#define VP_CANARY 1\n'
     if canary and job.canary == 'signal':
         defs += '#define VP_TRAP_POS_OK 0\n#define VP_TRAP_NEG_OK 0\n#define VP_THROW_POS_OK 0\n#define VP_THROW_NEG_OK 0\n'
         defs = '\n'.join(l for l in defs.split('\n') if not re.match(r'#define VP_(TRAP|THROW)_(POS|NEG)_OK (?!0$)', l)) + '\n'
@@ -768,15 +772,28 @@ def _pipeline(job, kern, jd, tag, canary, res, want_trace=True):
     if job.loop_contracts:
         cmd2 += ['--apply-loop-contracts']
     cmd2 += [a, b]
-    rc, out, err, s, to = run_cmd(cmd2, jd, 600)
-    if rc != 0 or not os.path.exists(b):
-        raise Infra('goto-instrument failed for %s:\n%s' % (job.name, (out + err)[-3000:]))
+    if job.plain:
+        cmd2 = ['true', '(contract enforced by the harness: assume requires, call, assert ensures; no goto-instrument step)']
+        b = a
+    else:
+        rc, out, err, s, to = run_cmd(cmd2, jd, 600)
+        if rc != 0 or not os.path.exists(b):
+            raise Infra('goto-instrument failed for %s:\n%s' % (job.name, (out + err)[-3000:]))
     base = ['cbmc', b, '--no-standard-checks', '--bounds-check', '--pointer-check', '--signed-overflow-check',
             '--object-bits', str(job.object_bits), '--json-ui', '--verbosity', '4']
     if want_trace:
         base += ['--trace']
     if job.unwind:
         base += ['--unwind', str(job.unwind), '--unwinding-assertions']
+        # per-loop bounds (still checked by unwinding assertions): (regex on the demangled function name, loop ordinal, k)
+        us = []
+        for rx, idx, k in job.unwindset:
+            hits = [i_ for n_, i_ in tr.funcs.items() if i_.get('ok') and re.search(rx, i_['demangled'])]
+            if not hits:
+                raise Infra('unwindset pattern %r matches no function (renamed?)' % rx)
+            us += ['%s.%d:%d' % (i_['cname'], idx, k) for i_ in hits]
+        if us:
+            base += ['--unwindset', ','.join(us)]
     base += job.cbmc_flags
     cmds = [(s_, base + solver_flags(s_)) for s_ in job.solvers]
     budget = job.timeout if not canary else min(job.timeout, 900)
@@ -871,6 +888,11 @@ def _run_job(job, kern, jd, res):
             res.detail = 'vacuity canary timed out'
             return
         results2, _, _ = parse_cbmc_json(out2)
+        if not results2 and rc2 not in (0, 10):
+            res.canary = 'undecided'
+            res.status = 'undecided'
+            res.detail = 'vacuity canary produced no result (cbmc rc=%s: out of memory / solver failure)' % rc2
+            return
         want = 'postcondition' if job.canary == 'ensures' else 'signal'
         bad = [r for r in (results2 or []) if r.get('status') != 'SUCCESS'
                and classify(r.get('description', ''), r.get('property', '')) == want]
